@@ -125,6 +125,8 @@ class Std:
         elif k in ('eq', 'ne', 'lt', 'le', 'gt', 'ge', 'cmp', 'partial_cmp'):
             x = self.objs[self.h(op['a'])[1]]['pid']
             y = self.objs[self.h(op['b'])[1]]['pid']
+            # Rc<T>'s comparison operators call T's method of the same name exactly once
+            self.trace.append(['tcmp', k, x, y])
             if k in ('cmp', 'partial_cmp'):
                 self.obs(op, 'Less' if x < y else ('Equal' if x == y else 'Greater'))
             else:
@@ -267,10 +269,11 @@ class Std:
                 self.trace.append(['tclone', o['pid']])
                 npid = self.next_pid
                 self.next_pid += 1
-                self.payloads[npid] = dict(strong=list(pl['strong']), weak=list(pl['weak']), dropped=False)
-                for t in pl['strong']:
+                unl = getattr(self, 'clone_unlinked', False)
+                self.payloads[npid] = dict(strong=[] if unl else list(pl['strong']), weak=[] if unl else list(pl['weak']), dropped=False)
+                for t in ([] if unl else pl['strong']):
                     self.objs[t]['strong'] = s_add(self.objs[t]['strong'], 1)
-                for t in pl['weak']:
+                for t in ([] if unl else pl['weak']):
                     if t is not None:
                         self.objs[t]['weak'] = s_add(self.objs[t]['weak'], 1)
                 ni = self.next_obj
@@ -313,6 +316,8 @@ class Std:
             H[op['as']] = ('weak', i)
         elif k == 'on_drop':
             self.ondrop.setdefault(op['obj'], []).extend(op['do'])
+        elif k == 'clone_mode':
+            self.clone_unlinked = (op['mode'] == 'unlinked')
         elif k == 'note':
             pass
         else:
